@@ -7,6 +7,8 @@
 -/
 import EchoVerif.Lemmas.WalEdit
 import EchoVerif.Lemmas.WalBinding
+import EchoVerif.Lemmas.WalLedger
+import EchoVerif.Lemmas.WalDamage
 set_option linter.unusedSimpArgs false
 set_option linter.unusedVariables false
 
@@ -425,5 +427,167 @@ theorem transplant_not_prefix (cfg : Cfg) (H : HashFn) (base : Nat) (mode : Mode
     have := List.append_cancel_left heq
     simp only [List.cons.injEq] at this
     exact hdiff this.1
+
+/-! ### bit flips and zeroed ranges confined to one disk record -/
+
+/-- `record_damage_rejected` — byte damage as a theorem.  The segment holds any number of whole records
+    `rs`, then the bytes of one record `magic ‖ tag ‖ len(p) ‖ p ‖ digest(tag,p)`, then anything.
+    Damage that record in place (same lengths) in ANY way that leaves its 8-byte LENGTH field intact
+    and does not change BOTH the stored digest AND the (kind, payload) bytes: any bits of the magic, of
+    the kind byte and the payload (digest intact), or of the stored digest (kind and payload intact) —
+    every single-bit flip and every zeroed range inside one of these fields.  Then, under
+    collision-freedom of the record digest, `recover_wal_segment_bytes` and `recover_filesystem_store`
+    fail with SegmentRecordDigestMismatch and the doctor reports Obstructed — for every position of
+    the record in the file.  NOT covered (see `length_damage_torn_or_mismatch` and NOTES): the length
+    field, and ranges that rewrite payload and digest together. -/
+theorem record_damage_rejected (cfg : Cfg) (H : HashFn) (hinj : Function.Injective H) (h32 : Hash32 H)
+    (seg : Nat) (mode : Mode) (val : DRec → Rec) (rs : List DRec)
+    (hlen : ∀ r ∈ rs, r.payload.length < 2 ^ 64)
+    (hdec : ∀ r ∈ rs, decodeRec cfg H r.tag r.payload = .ok (val r))
+    (tag t' : UInt8) (p p' m' d' rest : Bytes)
+    (hm : m'.length = cfg.magic.length) (hpl : p'.length = p.length) (hp : p.length < 2 ^ 64)
+    (hd : d'.length = 32)
+    (hfield : d' = diskDigest cfg H tag p ∨ (t' = tag ∧ p' = p))
+    (hne : ¬ (m' = cfg.magic ∧ t' = tag ∧ p' = p ∧ d' = diskDigest cfg H tag p)) :
+    let bytes := encRecs cfg H rs ++ (m' ++ (t' :: (u64 p.length ++ (p' ++ (d' ++ rest)))))
+    recoverSegmentBytesT cfg H seg bytes mode = .error .digest
+      ∧ recoverFilesystemT cfg H bytes mode = .error .digest
+      ∧ doctor cfg H bytes = .obstructed := by
+  intro bytes
+  have hbad : m' ≠ cfg.magic ∨ d' ≠ diskDigest cfg H t' p' := by
+    by_cases hmm : m' = cfg.magic
+    · right
+      rcases hfield with hdig | ⟨ht, hpp⟩
+      · intro heq
+        have := diskDigest_binds cfg H hinj tag t' p p' (hdig ▸ heq)
+        exact hne ⟨hmm, this.1.symm, this.2.symm, hdig⟩
+      · subst ht hpp
+        intro heq
+        exact hne ⟨hmm, rfl, rfl, heq⟩
+    · exact Or.inl hmm
+  have hscan : scan cfg H (decodeRec cfg H) bytes = .error .digest := by
+    have := scan_damaged_record cfg H h32 (decodeRec cfg H) val rs hlen hdec m' t' p' d' rest hm
+      (by omega) hd hbad
+    rw [hpl] at this
+    exact this
+  refine ⟨?_, ?_, ?_⟩
+  · simp only [recoverSegmentBytesT, hscan]
+  · simp only [recoverFilesystemT, hscan]
+  · simp only [doctor, recoverFilesystemT, hscan]
+
+/-- non-vacuity of the hypotheses: `H := id` is injective; a flipped payload byte with the digest field
+    intact is an instance (`hfield` left, `hne` by the payload) -/
+example : ([1] : Bytes) ≠ [0] ∧ ([1] : Bytes).length = ([0] : Bytes).length := by decide
+
+/-- `length_damage_torn_or_mismatch` — the 8 length bytes of a record replaced by ANY 8 bytes `l'`
+    (claiming `len'`): if fewer than `len' + 32` bytes follow, the reader reports a torn tail and
+    returns exactly the records in front (a prefix of the file's records — recovery then proceeds as
+    for a truncated file, `truncation_recovers_prefix`); otherwise it compares the 32 bytes at the
+    displaced position with the digest of the displaced payload and fails with
+    SegmentRecordDigestMismatch unless they coincide.  (That coincidence — 32 bytes of the file being
+    the digest of a byte range ending right in front of them — is the one event collision-freedom
+    does not exclude; it is an explicit hypothesis here and is covered by correspondence + oracle.) -/
+theorem length_damage_torn_or_mismatch (cfg : Cfg) (H : HashFn) (h32 : Hash32 H)
+    (val : DRec → Rec) (rs : List DRec)
+    (hlen : ∀ r ∈ rs, r.payload.length < 2 ^ 64)
+    (hdec : ∀ r ∈ rs, decodeRec cfg H r.tag r.payload = .ok (val r))
+    (t' : UInt8) (l' body : Bytes) (hl : l'.length = 8) :
+    (body.length < leNat l' + 32 →
+      scan cfg H (decodeRec cfg H) (encRecs cfg H rs ++ (cfg.magic ++ (t' :: (l' ++ body))))
+        = .ok (rs.map val, true))
+    ∧ (leNat l' + 32 ≤ body.length →
+        (body.drop (leNat l')).take 32 ≠ diskDigest cfg H t' (body.take (leNat l')) →
+      scan cfg H (decodeRec cfg H) (encRecs cfg H rs ++ (cfg.magic ++ (t' :: (l' ++ body))))
+        = .error .digest) :=
+  scan_length_damage cfg H h32 (decodeRec cfg H) val rs hlen hdec t' l' body hl
+
+/-! ### the writer-epoch ledger gate (`FilesystemWalStore::open`, every ledger reload, i.e. the first
+    step of `TrustedRuntimeWal::from_config`): `reconcile_writer_epoch_closures` -/
+
+/-- `ledger_gate_exact` — the exact acceptance condition of `reconcile_writer_epoch_closures`, for
+    EVERY ledger and EVERY list of commit markers: it succeeds iff the ledger is non-empty (or there
+    are no markers) and EVERY marker is admitted, i.e. was written by the active epoch / a retained
+    closed epoch, or ends strictly below the retained start LSN.  No marker is exempt because of its
+    position, its LSN range (closed-epoch ranges included) or the state of the closure map. -/
+theorem ledger_gate_exact (l : Ledger) (cs : List Commit) :
+    (∃ l', reconcile l cs = .ok l')
+      ↔ (l.active.isSome = true ∨ l.closed ≠ [] ∨ cs = []) ∧ ∀ c ∈ cs, l.admits c = true :=
+  reconcile_ok_iff l cs
+
+/-- `foreign_epoch_commit_rejected` — any commit marker whose writer epoch is not in the ledger chain
+    (neither the active nor a retained closed epoch) and which does not end strictly below the
+    retained start LSN makes the reconciliation fail with a typed error, wherever it sits in the
+    marker list — in particular inside the LSN range of a CLOSED epoch. -/
+theorem foreign_epoch_commit_rejected (l : Ledger) (cs : List Commit) (c : Commit) (hc : c ∈ cs)
+    (hunknown : l.knows c.writerEpoch = false) (hrange : l.belowRetained c = false) :
+    reconcile l cs = .error .unknownPrev ∨ reconcile l cs = .error .missingLedger := by
+  cases h : reconcile l cs with
+  | ok l' =>
+    have := ((reconcile_ok_iff l cs).mp ⟨l', h⟩).2 c hc
+    simp [Ledger.admits, hunknown, hrange] at this
+  | error e =>
+    rcases reconcile_error l cs e h with he | he <;> subst he
+    · exact Or.inl rfl
+    · exact Or.inr rfl
+
+/-- non-vacuity: a ledger with one closed epoch `[7]` started at LSN 0 and a marker of epoch `[9]` -/
+example : (⟨none, [⟨[7], [], [], [], 0, none, none, []⟩], []⟩ : Ledger).knows [9] = false
+    ∧ (⟨none, [⟨[7], [], [], [], 0, none, none, []⟩], []⟩ : Ledger).belowRetained
+        ⟨[9], [], 0, 3, 4, 2, [], [], [], 0, 0, []⟩ = false := by decide
+
+/-- the same at the level of `FilesystemWalStore::open`: whatever segment files the root holds (any
+    number, any content that scans), if ANY scanned record is a commit marker of an epoch the decoded
+    ledger does not know (and not below its retained start), `open` fails with
+    `UnknownPreviousWriterEpoch` / `MissingWriterEpochLedger`. -/
+theorem open_rejects_foreign_commit (cfg : Cfg) (H : HashFn) (lc : LedgerCfg) (ledgerFile : Option Bytes)
+    (segs : List Bytes) (l : Ledger) (recs : List Rec) (torn : Bool)
+    (hl : readLedger H lc ledgerFile = .ok l) (hs : scanSegments cfg H segs = .ok (recs, torn))
+    (c : Commit) (hc : Rec.commit c ∈ recs)
+    (hunknown : l.knows c.writerEpoch = false) (hrange : l.belowRetained c = false) :
+    openStore cfg H lc ledgerFile segs = .error (.epoch .unknownPrev)
+      ∨ openStore cfg H lc ledgerFile segs = .error (.epoch .missingLedger) := by
+  obtain ⟨frames, commits, hrd, hmem⟩ := mem_readSegments_commits hs
+  have hcm : c ∈ commits := (hmem c).mpr hc
+  simp only [openStore, hl, hrd]
+  rcases foreign_epoch_commit_rejected l commits c hcm hunknown hrange with h | h <;> simp [h]
+
+/-- `transplant_foreign_epoch_rejected` — the splice of `transplant_not_prefix`, seen through `open`:
+    for EVERY log `pre ++ t' :: post` on disk (the transaction `t'` at ANY position — inside a closed
+    epoch's range, inside the active epoch's range), if the marker of `t'` carries a writer epoch the
+    ledger does not know (and does not end below the retained start), the store does not open.
+    Together with `transplant_not_prefix` (recovery alone accepts the splice) this makes the ledger
+    reconciliation the ONLY barrier against a transaction spliced in from a log of other epochs. -/
+theorem transplant_foreign_epoch_rejected (cfg : Cfg) (H : HashFn) (h32 : Hash32 H) (lc : LedgerCfg)
+    (ledgerFile : Option Bytes) (l : Ledger) (hl : readLedger H lc ledgerFile = .ok l)
+    (pre post : List Tx) (t' : Tx) (hcodec : Codec cfg H (pre ++ t' :: post))
+    (hunknown : l.knows t'.commit.writerEpoch = false) (hrange : l.belowRetained t'.commit = false) :
+    openStore cfg H lc ledgerFile [encLog cfg H (pre ++ t' :: post)] = .error (.epoch .unknownPrev)
+      ∨ openStore cfg H lc ledgerFile [encLog cfg H (pre ++ t' :: post)] = .error (.epoch .missingLedger) := by
+  obtain ⟨recs, hscan, hsub⟩ := scan_log_full cfg H h32 (pre ++ t' :: post) hcodec
+  have hs : scanSegments cfg H [encLog cfg H (pre ++ t' :: post)] = .ok (recs, false) := by
+    simp [scanSegments, hscan]
+  refine open_rejects_foreign_commit cfg H lc ledgerFile _ l recs false hl hs t'.commit ?_ hunknown hrange
+  exact hsub t' (by simp)
+
+/-- `same_epoch_transplant_passes_ledger` — NEGATIVE, the exact extent of known findings C11-K1 / C11-K4:
+    if a root opens, it still opens after ANY marker is replaced by a marker the ledger admits — one
+    written under an epoch id the ledger knows (a sibling log with coinciding epoch ids: K1, only the
+    unchecked commit chain could tell) or ending below the retained start LSN (the range of an epoch
+    the bounded ledger has pruned: K4). -/
+theorem same_epoch_transplant_passes_ledger (l : Ledger) (pre post : List Commit) (c c' : Commit)
+    (hopen : ∃ l', reconcile l (pre ++ c :: post) = .ok l') (hadm : l.admits c' = true) :
+    ∃ l', reconcile l (pre ++ c' :: post) = .ok l' := by
+  obtain ⟨hne, hall⟩ := (reconcile_ok_iff l _).mp hopen
+  refine (reconcile_ok_iff l _).mpr ⟨?_, ?_⟩
+  · rcases hne with h | h | h
+    · exact Or.inl h
+    · exact Or.inr (Or.inl h)
+    · simp at h
+  · intro x hx
+    simp only [List.mem_append, List.mem_cons] at hx
+    rcases hx with hx | hx | hx
+    · exact hall x (by simp [hx])
+    · subst hx; exact hadm
+    · exact hall x (by simp [hx])
 
 end EchoVerif.C11
